@@ -202,6 +202,15 @@ func parseContractText(text, path, pkgPath string) ([]*FuncContract, error) {
 			cur = &FuncContract{Func: rest, PkgPath: pkgPath, File: path, Arith: "none", invs: map[int][]string{}, regions: map[string]string{}, Line: n + 1, NoPanic: true}
 			out = append(out, cur)
 			last = nil
+		case word == "funcs":
+			// funcs having <param> <type> [matching <regexp>] [in ...] [except ...]: one contract per such function or literal
+			sel, err := parseSelector(rest)
+			if err != nil || !sel.Funcs {
+				return nil, fmt.Errorf("%s:%d: malformed funcs selector (%v)", path, n+1, err)
+			}
+			cur = &FuncContract{Func: "funcs " + rest, PkgPath: pkgPath, File: path, Arith: "none", invs: map[int][]string{}, regions: map[string]string{}, Line: n + 1, Sel: sel}
+			out = append(out, cur)
+			last = nil
 		case word == "methods":
 			// methods <recvName> <*T|T> [of <pkg.Interface>] [matching <regexp>] [in A B C] [except A B C]
 			sel, err := parseSelector(rest)
